@@ -102,12 +102,17 @@ def runC01b (j : Json) : R Json := do
     | none => Json.null
     | some r => Json.mkObj [("backend", jBackend r.backend), ("n_samples", jOpt jNat r.nSamples),
         ("shape", jOpt jShape r.shape), ("n_channels", jNat r.nChannels), ("dtype", Json.str r.dtype),
-        ("duration", jOpt jRat r.duration), ("part_bounds", jNats r.partBounds)]
+        ("duration", jOpt jRat r.duration), ("part_bounds", jNats r.partBounds),
+        ("chunk_bounds", jNats r.chunkBounds)]
   let n := A.length
   let spec := Json.mkObj [("backend", jBackend src.backend), ("n_samples", jNat n),
     ("shape", jShape (n, src.width)), ("n_channels", jNat src.width), ("dtype", Json.str src.dtype),
     ("duration", if src.rate = 0 then Json.null else jRat ((n : Rat) / src.rate))]
-  pure (Json.mkObj [("res", Json.arr res.toArray), ("attrs", attrs), ("spec_attrs", spec)])
+  -- `rate_ok`: the rate condition of `SrcOK` (`RateOK`: the constructor accepts the rate and the float product is in
+  -- the range `Fl.roundDouble` models); `cs_fl` / `cs_exact`: chunk length from the float / the exact product (tally)
+  pure (Json.mkObj [("res", Json.arr res.toArray), ("attrs", attrs), ("spec_attrs", spec),
+    ("rate_ok", Json.bool src.rateOK), ("cs_fl", jInt (PhyVerif.C16.chunkSizeFl src.rate)),
+    ("cs_exact", jInt (PhyVerif.C16.chunkSize src.rate))])
 
 def runC01 (op : String) (j : Json) : R Json := do
   match op with
